@@ -78,12 +78,18 @@ def abs_sig(p):
     return {'apps': [abs_app(a) for a in p.app_sigs]}
 
 
-def norm_sig(js, sort_models=False):
-    """canonical form for comparison"""
+def norm_sig(js, sort_models=False, sort_attrs=False):
+    """canonical form for comparison; `sort_attrs`: the order of a field's attribute dictionary is not content
+    (a type-changing ChangeField replaces the dictionary, an ordinary one updates it)"""
     js = json.loads(json.dumps(js))
     if sort_models:
         for a in js['apps']:
             a['models'].sort(key=lambda m: m['name'])
+    if sort_attrs:
+        for a in js['apps']:
+            for m in a['models']:
+                for f in m['fields']:
+                    f['attrs'] = sorted(f['attrs'])
     return js
 
 
